@@ -469,3 +469,58 @@ def rule_S1(prog, fixture=False):
     if n_ops == 0 and not fixture:
         res.broken.append("anchor vanished: no compound scalar operator of base_array / cmplx_t instantiated")
     return res
+
+
+# =================================================================================================
+# T2 OPERAND-ORDER: the non-commutative binary operators keep their operands in the order they were given  (C03)
+def rule_T2(prog, fixture=False):
+    from .flow import Flow
+    from .rules_state import fkey
+    res = RuleResult("T2", "inside every free operator-(a, b) and operator/(a, b) of the array vocabulary, each '-' ('/') expression that "
+                           "combines a value derived from a only with a value derived from b only has the a-side on the left: a helper "
+                           "that delegates to the mirrored overload (return b - T(a);) computes b - a")
+    n = 0
+    for f in sorted(prog.functions.values(), key=lambda f: (f.file, f.line, f.name)):
+        nm = f.qn.rsplit("::", 1)[-1]
+        if nm not in ("operator-", "operator/") or f.cls or len(f.params) != 2 or f.get("implicit") or f.file.endswith("coverage.cc"):
+            continue
+        rel = prog.rel(f.file)
+        if not fixture and not re.search(r"include/dsplib/(array|types)\.h$", rel):
+            continue
+        op = nm[-1]
+        flow = Flow(f, prog)
+        a, b = f.params[0]["n"], f.params[1]["n"]
+        n += 1
+        key = "T2:" + fkey(f)
+        where = "%s:%d" % (rel, f.line)
+        what = "%s(%s, %s)" % (f.short, (f.params[0].get("t") or "").replace("dsplib::", ""), (f.params[1].get("t") or "").replace("dsplib::", ""))
+        bad, seen = None, 0
+        for x in f.walk():
+            kids = None
+            if x.k == "BinaryOperator" and x.op == op and len(x.c) == 2:
+                kids = x.c
+            elif x.k == "CXXOperatorCallExpr" and x.op == op and len(x.c) == 3:
+                kids = x.c[1:]
+            elif x.k == "CXXMemberCallExpr" and x.callee and (x.callee.get("qn") or "").endswith("operator" + op) and x.call_object() is not None and len(x.call_args()) == 1:
+                kids = [x.call_object(), x.call_args()[0]]
+            if kids is None:
+                continue
+            dl = {d[1] for d in flow.deps(kids[0]) if d[0] == "parm"}
+            dr = {d[1] for d in flow.deps(kids[1]) if d[0] == "parm"}
+            if dl == {a} and dr == {b}:
+                seen += 1
+            elif dl == {b} and dr == {a}:
+                bad = x
+        if bad is not None:
+            res.add(key, VIOLATED, "%s:%d" % (rel, bad.line), what,
+                    "%s has the second operand '%s' on the left and the first operand '%s' on the right: the result is b %s a" % (
+                        bad.text()[:70], b, a, op), func=f.name, extra={"props": ["C03"]})
+        elif seen:
+            res.add(key, DISCHARGED, where, what, "%d '%s' expression(s) keep the operand order" % (seen, op), func=f.name, extra={"props": ["C03"]})
+        else:
+            res.add(key, UNMODELLED, where, what, "no '%s' expression that separates the two operands (delegation through a copy / compound form)" % op,
+                    func=f.name, extra={"props": ["C03"]})
+    res.stats["free_noncommutative_operators"] = n
+    if not n and not fixture:
+        res.broken.append("anchor vanished: no free operator- / operator/ in array.h / types.h")
+    return res
